@@ -55,7 +55,7 @@ MC_SNAP_ASBUILT = mc_conc({'MAXOPS': '1', 'TRANSPORT': 'log', 'SNAPFAILS': 'FALS
 
 PROPS = {
     'C01': seq_prop('c01', 150, 2500, mc=[MC_STORE_STRICT, MC_STORE_ASBUILT, MC_STORE_NEG, MC_SCHEMA, MC_SCHEMA_COLS]),
-    'C02': seq_prop('c02', 120, 2000, mc=[MC_ATOMIC], more=[fam('conc', 'c02', 16, 300)]),
+    'C02': seq_prop('c02', 120, 2000, mc=[MC_ATOMIC], more=[fam('seq', 'c02k', 60, 1000), fam('conc', 'c02', 16, 300)]),
     'C03': seq_prop('c03', 150, 2500, mc=[MC_STORE_STRICT, MC_STORE_ASBUILT, MC_SCHEMA, MC_SCHEMA_COLS]),
     'C04': {'level': 'model_checking', 'mc': [], 'trace': COLUMN_TRACE, 'assumptions': [],
             'families': [
@@ -79,7 +79,7 @@ PROPS = {
                     more=[fam('conc', 'c06', 24, 400), fam('conc', 'c06dfs', 1, 16)]),
     'C07': seq_prop('c07', 120, 2000, mc=[MC_SNAP], more=[fam('seq', 'c07k', 40, 500)]),
     'C08': {'level': 'model_checking', 'mc': [MC_SNAP, MC_SNAP_ASBUILT], 'families': [fam('conc', 'c08', 32, 500), fam('conc', 'c08dfs', 1, 12)], 'trace': COLUMN_TRACE, 'assumptions': []},
-    'C09': {'level': 'model_checking', 'mc': [MC_CONC_STRICT], 'families': [fam('conc', 'c09', 48, 800)], 'trace': COLUMN_TRACE, 'assumptions': []},
+    'C09': {'level': 'model_checking', 'mc': [MC_CONC_STRICT], 'families': [fam('conc', 'c09', 48, 800), fam('par', 'c09', 8, 200)], 'trace': COLUMN_TRACE, 'assumptions': []},
     'C10': {'level': 'model_checking', 'assumptions': ['torn reads are searched for statistically under real parallelism (16 cores); the latch probes are deterministic'],
             'mc': [{'module': 'Latch', 'cfg': 'MC_Latch.cfg', 'constants': {'READLATCH': 'TRUE'}, 'quick': {}, 'thorough': {}, 'deadlock': True},
                    {'module': 'Latch', 'cfg': 'MC_Latch.cfg', 'constants': {'READLATCH': 'FALSE'}, 'quick': {}, 'thorough': {}, 'deadlock': True, 'expect_violation': True}],
